@@ -1310,6 +1310,10 @@ func (c *CreateMaterializedViewStatement) SQL() string {
 		sb.WriteString(strings.Join(safeNames(c.Columns), ", "))
 		sb.WriteString(")")
 	}
+	if c.Tablespace != "" {
+		sb.WriteString(" TABLESPACE ")
+		sb.WriteString(safeName(c.Tablespace))
+	}
 	sb.WriteString(" AS ")
 	sb.WriteString(stmtSQL(c.Query))
 	if c.WithData != nil {
